@@ -426,6 +426,19 @@ func (an *Analysis) binAtom(x *ssa.BinOp, depth int) (*Atom, bool) {
 	if !ok {
 		return an.exceedsAtom(x)
 	}
+	// emptiness of a slice/map/string: len(x) == 0 (or != 0, > 0, < 1, >= 1)
+	if lc, ok := l.(*ssa.Call); ok {
+		if bi, isB := lc.Call.Value.(*ssa.Builtin); isB && bi.Name() == "len" && len(lc.Call.Args) == 1 {
+			if k, ok := constInt(rc); ok {
+				switch {
+				case k == 0 && op == token.EQL, k == 1 && op == token.LSS, k == 0 && op == token.LEQ:
+					return &Atom{Key: "cmp:len==0", Val: an.canon(lc.Call.Args[0])}, false
+				case k == 0 && (op == token.NEQ || op == token.GTR), k == 1 && op == token.GEQ:
+					return &Atom{Key: "cmp:len==0", Val: an.canon(lc.Call.Args[0])}, true
+				}
+			}
+		}
+	}
 	// bool compare with constant
 	if b, ok := constBool(rc); ok && (op == token.EQL || op == token.NEQ) {
 		a, n := an.atomOf(l, depth+1)
